@@ -18,6 +18,14 @@ class BuiltinMixin:
             h = getattr(self, "bi_" + name, None)
             if h is not None and (name not in self.SPEC_ONLY or fr.kind == "spec"):
                 return h(node, st, fr)
+        if isinstance(fn, ast.Attribute) and fn.attr == "render":
+            tmpl = self.ev(fn.value, st, fr)
+            if tmpl.pt == "obj:Template":
+                kw = {k.arg: self.ev(k.value, st, fr) for k in node.keywords}
+                d = self.voc.dempty
+                for k in sorted(kw):
+                    d = self.voc.dset(d, self.voc.S2V(z3.StringVal(k)), self.box(kw[k]))
+                return self.call_named("jinja2.Template.render", [tmpl, SV(d, "dict")], {}, st, fr, node)
         callee = self.ev(fn, st, fr)
         if callee.pt == "pyfunc":
             kind = callee.py[0]
@@ -49,6 +57,8 @@ class BuiltinMixin:
                 return self.apply_lambda(callee, args, st, fr)
             if kind == "name":
                 return self.call_named(callee.py[1], args, kwargs, st, fr, node)
+            if kind == "func":
+                return self.call_function(callee.py[1], args, kwargs, st, fr, node)
         if callee.pt == "class":
             args, kwargs = self.eval_args(node, st, fr)
             return self.construct(callee, args, kwargs, st, fr, node)
@@ -279,6 +289,7 @@ class BuiltinMixin:
     def quantify(self, seq: SV, pred, combine, st, fr, esort="any"):
         """exists/forall over the elements of a list, as a quantifier over the index"""
         v = self.voc
+        seq = SV(self.named(seq.t, st), seq.pt, seq.py)
         j = self.fresh("qj", z3.IntSort())
         n_f = len(st.facts)
         elem = self.with_sort(v.sat(seq.t, j), esort)
@@ -321,6 +332,8 @@ class BuiltinMixin:
                 return self.call_named(f.py[1], args, {}, st, fr, node)
             if k == "closure":
                 return self.call_closure(f.py[1], args, {}, st, fr, node)
+            if k == "func":
+                return self.call_function(f.py[1], args, {}, st, fr, node)
         if f.pt == "class":
             return self.construct(f, args, {}, st, fr, node)
         raise Untranslatable("apply of non-callable")
@@ -391,7 +404,7 @@ class BuiltinMixin:
     # ------------------------------------------------------------------ spec-only functions (contract language)
     SPEC_ONLY = {"card", "implies", "iff", "forall", "exists", "subset", "set_eq", "old", "is_class", "keys_of",
                  "ty_is", "same_class", "unchanged", "fresh_obj", "no_effects", "effects", "attr", "sel", "tuple2", "sval", "ival",
-                 "mro_of", "seq_len", "dict_len", "truthy", "dict_get", "pyeval_str", "at", "is_none"}
+                 "mro_of", "as_dict", "as_list", "as_set", "seq_len", "dict_len", "truthy", "dict_get", "pyeval_str", "at", "is_none"}
     SPEC_CONSTS = {}
 
     def bi_card(self, node, st, fr):
@@ -431,6 +444,7 @@ class BuiltinMixin:
         saved = dict(st.env)
         try:
             if coll.pt in ("set", "frozenset", "dict"):
+                coll = SV(self.named(coll.t, st), coll.pt, coll.py)
                 x = self.fresh("qx")
                 st.env[param] = self.with_sort(x, self.elem_sort(node.args[0], fr) if coll.pt != "dict" else "any")
                 n_f = len(st.facts)
@@ -586,3 +600,12 @@ class BuiltinMixin:
         x = self.unbox(self.ev(node.args[0], st, fr), "str")
         f = self.voc.fn("pyeval_str", z3.StringSort(), z3.StringSort())
         return SV(f(x.t), "str")
+
+    def bi_as_dict(self, node, st, fr):
+        return SV(self.box(self.ev(node.args[0], st, fr)), "dict")
+
+    def bi_as_list(self, node, st, fr):
+        return SV(self.box(self.ev(node.args[0], st, fr)), "list")
+
+    def bi_as_set(self, node, st, fr):
+        return SV(self.box(self.ev(node.args[0], st, fr)), "set")
